@@ -1,9 +1,23 @@
 #!/bin/sh
 # Build the framework from files on disk only (offline): the Coq development and the Rust harness.
 set -e
+# the generated wiring table (C07) is regenerated from /repo's current sources, as the C07 check does on every run
+cd /verif
+python3 -c "
+import sys
+sys.path.insert(0, '/verif')
+from vlib import wiring
+try:
+    entries, problems, docs = wiring.translate('/repo')
+    wiring.emit_coq(entries, docs, '/verif/coq/theories/Gen/WiringTable.v')
+except Exception as ex:
+    print('wiring table not regenerated:', ex)
+" || true
 cd /verif/coq
 coq_makefile -f _CoqProject -o Makefile
-timeout 5400 make -j16
+# -k: a file that does not compile (e.g. the table theorem when /repo's wrappers disagree with their documentation) must not keep
+# the rest from being built; every check rebuilds and reports what it needs
+timeout 5400 make -k -j16 || echo "setup: some Coq targets did not build; the checks will report them"
 cd /verif/harness
 [ -f Cargo.lock ] || cp /repo/Cargo.lock Cargo.lock
 CARGO_NET_OFFLINE=true cargo build --release --offline
